@@ -8,7 +8,7 @@
 #define C12_CHECK_H
 
 void x_verif_capacity_exceeded(void) { CHECK(0, "stand-in container capacity suffices for every run within the bounds"); }
-void x___assert_fail(u8 *a, u8 *b, u32 c, u8 *d) { (void)a; (void)b; (void)c; (void)d; CHECK(0, "no assert() of the library fails (builder stack never empty, exactly the root left after a successful parse)"); }
+/* assert() of the library (builder stack never empty; exactly the root left after a successful parse): x___assert_fail in symtab.h is a failed check */
 
 /* verdicts of bool-returning actions attached to named rules (vf::act_bool): 0 veto, 1 accept, 2 throw; indexed by rule and start */
 #ifndef C12_VETO_MAX
